@@ -530,7 +530,9 @@ def rgb_to_hsl(rgb_color):
         h = 0
         s = 0
     else:
-        s = diff / (1 - abs(2 * l - 1))
+        # floating point can push this a hair above 1 (e.g. 100.00000000000003%),
+        # which hsl_to_rgb() rejects
+        s = min(1.0, diff / (1 - abs(2 * l - 1)))
 
         if mx == r:
             h = (g - b) / diff % 6
